@@ -145,42 +145,26 @@ func (m ClientState) RestrictChain(cdc codec.BinaryCodec, store sdk.KVStore, new
 	si, ti := m.Header.Height, new.Height
 	var err error
 	current := m.Header
-	//si > ti
-	if si.RevisionHeight > ti.RevisionHeight {
-		ConsensusTmp := store.Get(host.ConsensusStateKey(ti))
-		if ConsensusTmp == nil {
+	// si > ti: walk the current main branch down to the height of the new header. The header index is keyed by
+	// (hash, height) and therefore unambiguous, while the root-main index may point at another header of the same
+	// height that has the same state root (even at the new header itself, which update() has just stored).
+	for si.RevisionHeight > ti.RevisionHeight {
+		currentTmp := GetParentHeaderFromIndex(store, current)
+		if currentTmp == nil {
 			return sdkerrors.Wrapf(
-				clienttypes.ErrInvalidConsensus, "can not find consensus state for height %s in RestrictChain", ti)
-		}
-		var tiConsensus exported.ConsensusState
-		if err = cdc.UnmarshalInterface(ConsensusTmp, &tiConsensus); err != nil {
-			return sdkerrors.Wrapf(ErrUnmarshalInterface, "can not unmarshal ConsensusState interface in RestrictChain ")
-
-		}
-		tmpConsensus, ok := tiConsensus.(*ConsensusState)
-		if !ok {
-			return sdkerrors.Wrapf(
-				clienttypes.ErrInvalidConsensus, "can not find consensus state for height %s in RestrictChain", ti)
-		}
-		root := tmpConsensus.Root
-		headerIndexKey := GetHeaderIndexKeyByEthConsensusRoot(store, common.BytesToHash(root), ti.GetRevisionHeight())
-		currentBytes := store.Get(headerIndexKey)
-		if currentBytes == nil {
-			return sdkerrors.Wrapf(
-				clienttypes.ErrInvalidConsensus, "can not find Header for height %s in RestrictChain", ti)
+				clienttypes.ErrInvalidConsensus, "can not find Header for height %s in RestrictChain", si)
 		}
 		var currentHeaderInterface exported.Header
-		if err = cdc.UnmarshalInterface(currentBytes, &currentHeaderInterface); err != nil {
+		if err = cdc.UnmarshalInterface(currentTmp, &currentHeaderInterface); err != nil {
 			return sdkerrors.Wrapf(ErrUnmarshalInterface, "can not unmarshal ConsensusState interface in RestrictChain ")
-
 		}
-		currentTmp, ok := currentHeaderInterface.(*Header)
+		currentParent, ok := currentHeaderInterface.(*Header)
 		if !ok {
 			return sdkerrors.Wrapf(
-				clienttypes.ErrInvalidConsensus, "can not find consensus state for height %s in RestrictChain", ti)
+				clienttypes.ErrInvalidConsensus, "can not find consensus state for height %s in RestrictChain", si)
 		}
-		current = *currentTmp
-		si = ti
+		current = *currentParent
+		si.RevisionHeight--
 	}
 	newHashes := make([]common.Hash, 0)
 
@@ -238,6 +222,13 @@ func (m ClientState) RestrictChain(cdc codec.BinaryCodec, store sdk.KVStore, new
 				clienttypes.ErrInvalidConsensus, "can not  consensus state for height %s in RestrictChain", si)
 		}
 		current = *tmpConsensus
+	}
+	// new and current now have the same parent and the same height ti; newHashes holds the new branch above ti.
+	// If new is another header than current it has to be re-pointed as well, otherwise re-pointing starts above it.
+	if new.Hash() != current.Hash() {
+		newHashes = append(newHashes, new.Hash())
+	} else {
+		ti.RevisionHeight++
 	}
 	for i := len(newHashes) - 1; i >= 0; i-- {
 		newTmp := store.Get(EthHeaderIndexKey(newHashes[i], ti.GetRevisionHeight()))
